@@ -152,7 +152,7 @@ Proof. exact outbound_never_announces. Qed.
 Print Assumptions C14_outbound_never_announces.
 
 (* Outbound (Service.Connect, from the completed handshake on: isConnected short cut, addPeer, and
-   the getPeer test added by db8f6a6 -- call sites regenerated from the source): Connect reports a
+   the getPeer test added by ad08637 -- call sites regenerated from the source): Connect reports a
    peer to its caller (discovery, which then adds it to the topology) only if that peer is
    registered when Connect returns; it withholds nothing (an error leaves the peer unregistered);
    its effect on the registry is that of the enrolment or nothing. *)
@@ -237,7 +237,7 @@ Theorem C14_handlers_refuted : exists evs s p pe,
 Proof. exact handlers_refuted_v0. Qed.
 Print Assumptions C14_handlers_refuted.
 
-(* Connect before db8f6a6 (connect_v2) reported a peer it had not registered. *)
+(* Connect before ad08637 (connect_v2) reported a peer it had not registered. *)
 Theorem C14_connect_refuted : exists r c pe closed pe',
   snd (connect_v2 r c pe closed) = Some pe' /\ registered (fst (connect_v2 r c pe closed)) (remote c) = false.
 Proof. exact connect_refuted_v2. Qed.
